@@ -269,7 +269,8 @@ def eval_cases(ck, name, cases, sids):
     return mism, viol, out
 
 
-SPEC_CODE = {1: "a version was recorded ahead of the scripts applied, or a script was applied out of file order / is not one of the stream's scripts",
+SPEC_CODE = {1: "a version was recorded ahead of the scripts applied (e.g. for a script whose execution failed), or a script was applied out of file order, "
+                "or a script whose version is already recorded was run again, or a statement that is in none of the streams took effect",
              2: "a start without failures did not complete (initialisation stays broken after the earlier failure)",
              3: "the completed initialisation ended in a different schema / versions than an uninterrupted one",
              4: "a start on the up-to-date database executed migration statements"}
